@@ -37,7 +37,7 @@ CHECKS = {
  "C13": ("reference-model monitor (density x volume from the SI description) + frame-condition contracts on the setters (whole-array snapshots)",
          "Every (species, cell) entry of the default state and chemostat map of generated systems (species, network, space, nodes and system each in their own unit system; asymmetric grid shapes) is compared with the description; every addressing form of the getters/setters is exercised on arrays tagged with distinct numbers, with whole-array before/after snapshots.",
          "Override dictionaries and reset_state are outside the statement (found broken, see DESIGN.md).", "DESIGN.md 2/C13"),
- "C14": ("exact-arithmetic oracle on the recorded t=0 state + sequential statistical monitors (Ville mean test, randomised PIT + DKW) with a stated false-alarm bound + CPU-time termination monitor, allocator monitor (mallinfo2 + tracemalloc) over windows of set-up / release cycles",
+ "C14": ("exact-arithmetic oracle on the recorded t=0 state + sequential statistical monitors (Ville mean test, randomised PIT + DKW) with a stated false-alarm bound + CPU-time termination monitor",
          "Thousands of set-ups of rectangular asymmetric states (below one molecule, integers around 100, fractional, large, sparse) x 4 modes x 3 engines x grid/graph: integrality, floor totals (judged only when exact and float sums agree), zero-stays-zero, pass-through bytes, reproducibility per seed, Poisson counts vs Poisson(amount of that entry).",
          "False-alarm probability <= 3e-12 per run; power: a relative error of a few percent in the Poisson mean is detected within the quick tier.", "DESIGN.md 2/C14"),
  "C15": ("exhaustive reference-model monitor over all grids w,h,d in 1..4 x 8 boundary mixes (every cell, cell pair, out-of-range position), neighbour sets revealed by the Python kinetics and by one native Euler step, grid vs grid_to_graph equivalence",
